@@ -376,7 +376,10 @@ def run_partition_case(case, prop):
 
     with RNGInjection(case.get("inject")) as inj:
         try:
-            P = cls(domain=[list(iv) for iv in case["box"]])
+            dom = [list(iv) for iv in case["box"]]
+            if case.get("alias_box"):
+                dom = [dom[0]] * len(dom)
+            P = cls(domain=dom)
         except ContractBroken:
             for pred, det in _contract_state.get("last_inv") or []:
                 note(pred, det, -1)
